@@ -71,15 +71,19 @@ type Op struct {
 
 // Trace is what the user code observed/did during one entry-point call (reset before each call).
 type Trace struct {
-	Calls     int  // number of user marshaler invocations
-	Escaped   bool // some script popped below the depth at which it was entered
-	RelaxDup  bool // a script ran a nested MarshalEncode with AllowDuplicateNames(true)
-	RelaxUTF8 bool // … with AllowInvalidUTF8(true)
-	OpErrs    int  // encoder calls of scripts that returned an error (ignored or not)
-	Uniq      int  // counter for fresh names
-	Nest      int  // current recursion depth of user code (scripts may re-enter Marshal)
-	Swallowed int  // failed nested MarshalEncode calls whose error the script swallowed
-	Dropped   bool // an AppendText returned a slice that does not extend the buffer it was given (contract breach)
+	Calls      int  // number of user marshaler invocations
+	Escaped    bool // some script popped below the depth at which it was entered
+	RelaxDup   bool // a script ran a nested MarshalEncode with AllowDuplicateNames(true)
+	RelaxUTF8  bool // … with AllowInvalidUTF8(true)
+	OpErrs     int  // encoder calls of scripts that returned an error (ignored or not)
+	Uniq       int  // counter for fresh names
+	Nest       int  // current recursion depth of user code (scripts may re-enter Marshal)
+	Swallowed  int  // failed nested MarshalEncode calls whose error the script swallowed
+	DupToggled bool // a nested MarshalEncode of the script ran with an AllowDuplicateNames value different from the enclosing coder's
+	DupDesync  bool // a nested MarshalEncode of the script ran with an AllowDuplicateNames value different from the enclosing
+	// coder's EITHER while an object was already open around it OR ending with more containers open than it started with:
+	// objects then exist that were begun under one value and are continued/closed under the other (root cause D9)
+	Dropped bool // an AppendText returned a slice that does not extend the buffer it was given (contract breach)
 }
 
 // Beh is the behaviour of one user type value / one marshal function for one case.
@@ -195,7 +199,21 @@ func tokName(i int) string { return tokTable[i%len(tokTable)].name }
 
 // values that scripts marshal through a nested json.MarshalEncode
 func nestedValue(i int, b *Beh) any {
-	switch i % 8 {
+	switch i % 14 {
+	case 8:
+		return map[string]any{"x": 1}
+	case 9:
+		return map[string]any{"x": map[string]any{"z": []any{}}}
+	case 10:
+		return struct {
+			A any `json:"a"`
+		}{map[string]any{"a": 1}}
+	case 11:
+		return []any{map[string]any{"k": "v"}}
+	case 12:
+		return map[string]any{}
+	case 13:
+		return map[UStr]any{"Rdup": map[string]any{"x": 1}, "dup": 2}
 	case 0:
 		return 1
 	case 1:
@@ -272,7 +290,7 @@ func (b *Beh) run(enc *jsontext.Encoder) error {
 		case opVal:
 			err = enc.WriteValue(jsontext.Value(o.Raw))
 		case opNested:
-			err = json.MarshalEncode(enc, nestedValue(o.Arg, b), nestedOpts(o.Arg2, tr)...)
+			err = nestedMarshal(enc, tr, nestedValue(o.Arg, b), nestedOpts(o.Arg2, tr))
 		case opName:
 			tr.Uniq++
 			err = enc.WriteToken(jsontext.String(fmt.Sprintf("u%d", tr.Uniq)))
@@ -283,7 +301,7 @@ func (b *Beh) run(enc *jsontext.Encoder) error {
 		case opDeepEscape:
 			err = deepEscape(enc, o.Arg, tr, note)
 		case opFailRecover:
-			e := json.MarshalEncode(enc, failingValue(o.Arg, b), failOpts(o.Arg2, tr)...)
+			e := nestedMarshal(enc, tr, failingValue(o.Arg, b), failOpts(o.Arg2, tr))
 			note(e)
 			if e != nil {
 				tr.Swallowed++
@@ -378,6 +396,29 @@ func escapeContainer(enc *jsontext.Encoder, tr *Trace, note func(error) bool) er
 		}
 	}
 	return errors.Join(errs...)
+}
+
+// nestedMarshal is json.MarshalEncode as called by user code, recording in the trace whether the call switched
+// AllowDuplicateNames relative to the enclosing coder in a way that leaves objects begun under one value and
+// continued under the other.
+func nestedMarshal(enc *jsontext.Encoder, tr *Trace, v any, opts []json.Options) error {
+	before, _ := json.GetOption(enc.Options(), jsontext.AllowDuplicateNames)
+	during, _ := json.GetOption(json.JoinOptions(enc.Options(), json.JoinOptions(opts...)), jsontext.AllowDuplicateNames)
+	d0 := enc.StackDepth()
+	inObject := false
+	for i := 1; i <= d0; i++ {
+		if k, _ := enc.StackIndex(i); k == '{' {
+			inObject = true
+		}
+	}
+	err := json.MarshalEncode(enc, v, opts...)
+	if before != during {
+		tr.DupToggled = true
+	}
+	if before != during && (inObject || enc.StackDepth() > d0) {
+		tr.DupDesync = true
+	}
+	return err
 }
 
 // Payloads whose marshaling fails part-way, at some depth inside arrays, unique-key maps, namespace-checked maps
@@ -724,6 +765,27 @@ type CTimesCustom struct {
 	F time.Time               `json:"f,format:'Mon Jan _2 15:04:05 MST 2006'"`
 	K map[string]time.Time    `json:"k"`
 	L map[time.Time]time.Time `json:"l"`
+}
+
+// colliding TextMarshaler key texts around untyped values (the uniqueness of such a map's names rests on the encoder)
+type CDupKeys struct {
+	M map[UStr]any `json:"m"`
+	N map[UT]any   `json:"n,omitempty"`
+}
+
+// several `omitempty` members whose emptiness is only known after they were written (unwritten afterwards), at the
+// first, middle and last positions, between members that stay
+type COmit struct {
+	A any            `json:"a,omitempty"`
+	B int            `json:"b"`
+	C *struct{}      `json:"c,omitempty"`
+	D UJ             `json:"d,omitempty"`
+	E any            `json:"e,omitempty"`
+	F string         `json:"f"`
+	G IfaceJ         `json:"g,omitempty"`
+	H map[string]any `json:"h,omitempty"`
+	I *[]int         `json:"i,omitempty"`
+	J any            `json:"j,omitempty"`
 }
 type CTextKeyed struct {
 	K map[UT]UJ     `json:"k"`
